@@ -4,7 +4,7 @@
    - CSess: a websocket session with the real `adlt remote` (streams, queries, window changes, searches, lookups)
    - CBs  : slice::binary_search / partition_point of the toolchain against the modelled algorithm *)
 From Coq Require Import List NArith Bool.
-From AdltV Require Import Base.Obs Base.Res Base.MachInt Remote.Stream.
+From AdltV Require Import Base.Obs Base.Res Base.MachInt Remote.Stream Remote.StreamFast.
 Import ListNotations.
 Open Scope N_scope.
 
@@ -89,7 +89,9 @@ Inductive sop :=
 | SLookIdx (k idx : N)
 | SLookTime (k t : N).
 
-Definition c_run (sorted : bool) := @run cmsg part_chunk c_time c_index sorted.
+(* [fast_run] = [run] on every reachable state (Remote/StreamFastProofs.v, pinned as C16_fast_run_is_run); it makes
+   sessions with windows of some 100 000 messages evaluable *)
+Definition c_run (sorted : bool) := @fast_run cmsg part_chunk c_time c_index sorted.
 Definition c_step (sorted : bool) := @step cmsg part_chunk c_time c_index sorted.
 
 (* what was delivered_obs under [id] in a list of events: message indices, text positions, number of end markers *)
@@ -105,6 +107,27 @@ Fixpoint delivered_obs (id : N) (evs : list (event cmsg)) : list N * list N * N 
     | _ => (ix, ps, d)
     end
   end.
+(* number of messages delivered under [id] before its first end marker (all of them if there is none) *)
+Fixpoint before_done (id : N) (evs : list (event cmsg)) (n : N) : N :=
+  match evs with
+  | [] => n
+  | EFrame (FMsgs i ms) :: r => before_done id r (if i =? id then n + len ms else n)
+  | EFrame (FText i _ _) :: r => before_done id r (if i =? id then n + 1 else n)
+  | EFrame (FDone i) :: r => if i =? id then n else before_done id r n
+  | _ :: r => before_done id r n
+  end.
+
+(* long index lists are observed by (count, first, last, checksum) *)
+Definition chk_mod : N := 1000000007.
+Fixpoint chk (l : list N) (k acc : N) : N :=
+  match l with
+  | [] => acc
+  | x :: r => chk r (k + 1) ((acc + (x + 1) * k) mod chk_mod)
+  end.
+Definition o_ix (l : list N) : otree :=
+  if len l <=? 64 then T [L 0; T (map L l)]
+  else T [L 1; L (len l); L (hd 0 l); L (last l 0); L (chk l 1 0)].
+
 (* the last StreamInfo under [id]: (nr_stream_msgs, processed, total) *)
 Fixpoint last_info (id : N) (evs : list (event cmsg)) (cur : option (N * N * N)) : option (N * N * N) :=
   match evs with
@@ -121,7 +144,8 @@ Definition o_info (is_stream : bool) (i : option (N * N * N)) : otree :=
 (* [with_info]: only for the first id of a stream (whether a renewed id sees a StreamInfo depends on the batching) *)
 Definition o_delivered (with_info is_stream : bool) (id : N) (evs : list (event cmsg)) : otree :=
   let '(ix, ps, d) := delivered_obs id evs in
-  T [T (map L ix); T (map L ps); L d; if with_info then o_info is_stream (last_info id evs None) else T []].
+  T [o_ix ix; o_ix ps; L d; L (before_done id evs 0);
+     if with_info then o_info is_stream (last_info id evs None) else T []].
 
 Record sess := {
   ss_sv : server cmsg;
